@@ -91,7 +91,15 @@ fn frame_bytes(idx: usize, f: &RFrame, kind: &str) -> Vec<u8> {
     } else if f.cont {
         format!("{{\"parameters\":{{\"s\":\"c{idx}{pad}\",\"i\":{idx}}},\"continues\":true}}")
     } else if kind == "more" {
-        format!("{{\"continues\":false,\"parameters\":{{\"s\":\"f{idx}{pad}\"}}}}")
+        // the final reply of a streaming call says so in one of the three legal ways: `continues`
+        // false, absent, or null
+        match idx % 3 {
+            0 => format!("{{\"continues\":false,\"parameters\":{{\"s\":\"f{idx}{pad}\"}}}}"),
+            1 => format!("{{\"parameters\":{{\"s\":\"f{idx}{pad}\"}}}}"),
+            _ => format!("{{\"parameters\":{{\"s\":\"f{idx}{pad}\"}},\"continues\":null}}"),
+        }
+    } else if idx % 4 == 3 {
+        format!("{{\"parameters\":{{\"s\":\"p{idx}{pad}\",\"i\":{idx}}},\"continues\":false}}")
     } else {
         format!("{{\"parameters\":{{\"s\":\"p{idx}{pad}\",\"i\":{idx}}}}}")
     };
